@@ -15,29 +15,36 @@ def skey(f):
     return canon(B.describe(f))
 
 
+def _digest(x):
+    import hashlib
+    return hashlib.sha1(repr(x).encode('utf-8', 'replace')).hexdigest()
+
+
 def _key1(b, fresh_map, memo):
+    """Digest of b (fixed size: a nested tuple would make repr/sort cost
+    exponential on shared DAGs)."""
     k = id(b)
     if k in memo:
         return memo[k]
     op, pl, kids = b
     if op == 'sym' and FRESH.match(pl[0]):
-        r = ('sym', (fresh_map.get(pl[0], '?fresh'), pl[1]), ())
+        r = _digest(('sym', (fresh_map.get(pl[0], '?fresh'), pl[1]), ()))
     else:
         ks = [_key1(c, fresh_map, memo) for c in kids]
         if op in COMMUTATIVE:
-            ks = sorted(ks, key=repr)
+            ks = sorted(ks)
         if op in ('forall', 'exists'):
             pl = tuple(sorted((fresh_map.get(n, '?fresh') if FRESH.match(n)
                                else n, t) for (n, t) in pl))
         elif op == 'app' and FRESH.match(pl[0]):
             pl = (fresh_map.get(pl[0], '?fresh'), pl[1])
         if op == 'arrayval':
-            pairs = sorted(zip(ks[1::2], ks[2::2]), key=repr)
+            pairs = sorted(zip(ks[1::2], ks[2::2]))
             flat = [ks[0]]
             for a, c in pairs:
                 flat += [a, c]
             ks = flat
-        r = (op, pl, tuple(ks))
+        r = _digest((op, pl, tuple(ks)))
     memo[k] = r
     return r
 
@@ -62,32 +69,33 @@ def ackey_bp(b):
     """Key of a blueprint modulo order of commutative arguments, order of
     bound variables and names of fresh symbols."""
     # pass 1: all fresh names collapsed; gives a name-independent ordering
-    k1 = _key1(b, {}, {})
+    blind = {}
+    _key1(b, {}, blind)
     # rebuild with original names but children in the pass-1 order
-    order = _ordered(b, {})
+    order = _ordered(b, {}, blind)
     acc = []
     _fresh_order(order, acc, set())
     fmap = {n: '?f%d' % i for i, n in enumerate(acc)}
     return _key1(order, fmap, {})
 
 
-def _ordered(b, memo):
-    """b with commutative children sorted by their fresh-blind key."""
+def _ordered(b, memo, blind):
+    """b with commutative children sorted by their fresh-blind digest
+    (blind: id(sub-blueprint of the original) -> digest)."""
     k = id(b)
     if k in memo:
         return memo[k]
     op, pl, kids = b
-    ks = [_ordered(c, memo) for c in kids]
+    ks = [(blind[id(c)], _ordered(c, memo, blind)) for c in kids]
     if op in COMMUTATIVE:
-        ks = sorted(ks, key=lambda x: repr(_key1(x, {}, {})))
+        ks = sorted(ks, key=lambda x: x[0])
     if op == 'arrayval':
-        pairs = sorted(zip(ks[1::2], ks[2::2]),
-                       key=lambda p: repr(_key1(p[0], {}, {})))
+        pairs = sorted(zip(ks[1::2], ks[2::2]), key=lambda p: p[0][0])
         flat = [ks[0]]
         for a, c in pairs:
             flat += [a, c]
         ks = flat
-    r = (op, pl, tuple(ks))
+    r = (op, pl, tuple(x[1] for x in ks))
     memo[k] = r
     return r
 
